@@ -708,6 +708,25 @@ impl<'a> Ctx<'a> {
                 _ => {}
             }
         }
+        if r.op == Op::RawTrip && r.form < 2 && !panicked {
+            // decomposing and rebuilding neither changes the capacity nor touches the storage
+            let b = &before[r.slot];
+            let a = &self.snaps[r.slot];
+            let mem_now = env::counters();
+            let alloc_now = simalloc::counters();
+            let heap = self.info.be_of(r.slot).kind == BeKind::Heap;
+            let traffic = (mem_now.cap_changes - mem_before.cap_changes)
+                + if self.opts.alloc_monitor && heap { (alloc_now.allocs + alloc_now.reallocs + alloc_now.deallocs) - (alloc_before.allocs + alloc_before.reallocs + alloc_before.deallocs) } else { 0 };
+            if b.exists && a.exists && (a.cap != b.cap || a.storage_addr != b.storage_addr || traffic != 0) {
+                self.emit(self.viol(
+                    Class::CapPost,
+                    step,
+                    Some(p),
+                    0,
+                    format!("raw-parts round trip: capacity {} -> {}, storage {:#x} -> {:#x}, {} storage request(s)", b.cap, a.cap, b.storage_addr, a.storage_addr, traffic),
+                ))?;
+            }
+        }
         if r.op == Op::New && r.form == 1 && !panicked {
             let a = &self.snaps[r.slot];
             if a.cap < r.n {
